@@ -13,7 +13,9 @@ var attrNames = []string{"id", "class", "href", "data-x", "Title", "a", "b", "x:
 	"with", "if", "range", "remove", "else", "elif", "else-if", "text", "define"} // plain attributes named like directives
 var textRunes = []rune("abcXYZ 019 \t\n&;=/'\"-!][>é中  \U0001F600İK.,:$(){}\\`?")
 var valRunes = []rune("abcXYZ019&;=/-!][é中\U0001F600.,:(){}\\`?#")
-var exprPool = []string{"a", "a.b", "x+1", "f(1)", "name", "1", "'s'", `"q"`, "a[0]", "a ? 1 : 2", "!b", "len(xs)", "'}'", "'{'", "`}`", "'${'", "a.b.c", " a ", "x  >  1", "m['k']", "-1", "1.5e3", "0x1F", "s+'<'"}
+var exprPool = []string{"a", "a.b", "x+1", "f(1)", "name", "1", "'s'", `"q"`, "a[0]", "a ? 1 : 2", "!b", "len(xs)", "'}'", "'{'", "`}`", "'${'", "a.b.c", " a ", "x  >  1", "m['k']", "-1", "1.5e3", "0x1F", "s+'<'",
+	// strings whose last character is a backslash or an escaped quote; raw strings take backslashes literally
+	"`C:\\tmp\\`", "`\\`+'}'", "`\\`", "'a\\\\'", `"\\"`, "'\\''", `"a\"b"`, "`\\n{`", "`'`+`\"`", "'\\\\'+`}`", "`a\\`+`\\b`"}
 
 type DocOpts struct {
 	Prefix     string
@@ -228,12 +230,19 @@ func (g *docGen) item() {
 		}
 	case c < 63: // raw text element
 		name := g.r.Pick(rawNames)
-		g.sb.WriteString("<" + name + g.attrs() + ">")
+		if g.r.Chance(8) {
+			// a self-closing raw-text open tag still switches to raw text; its close tag is then a stray close tag
+			g.sb.WriteString("<" + name + g.attrs() + g.r.Pick([]string{"/>", " />"}))
+		} else {
+			g.sb.WriteString("<" + name + g.attrs() + ">")
+		}
 		g.sb.WriteString(g.rawContent(strings.ToLower(name)))
 		if !g.r.Chance(5) {
 			cn := name
 			if g.r.Chance(30) {
 				cn = strings.ToLower(name)
+			} else if g.r.Chance(30) {
+				cn = strings.ToUpper(name)
 			}
 			switch g.r.Intn(6) {
 			case 0:
@@ -279,6 +288,10 @@ func (g *docGen) item() {
 		}
 		if g.r.Chance(10) {
 			body += "<" + g.r.Pick([]string{"p>", "!- ", "! --"})
+		}
+		if g.r.Chance(10) {
+			// near misses of the hidden-comment form <!-- /* ... */ -->: ordinary comments, reproduced byte for byte
+			body = g.r.Pick([]string{"- /* legacy */ -", "! /* b */ !", " /* a */ >", " /* a */ x", "x /* a */ ", " /* a * /", " / * a */ ", "- /* x */", " /* y */ -", "!/* z */", " /* q */!", "< /* r */ >"})
 		}
 		g.sb.WriteString("<!--" + body + "-->")
 	case c < 91: // cdata
